@@ -310,14 +310,17 @@ class Compiler:
             return None
 
         indexes = []
-        names = {target.name: index for index, target in enumerate(targets)}
+        # Only the targets appearing in the SELECT targets list, the
+        # ones with a name, can be referenced.
+        names = {target.name: index for index, target in enumerate(targets) if target.name is not None}
+        n_targets = len([target for target in targets if target.name is not None])
 
         for column in pivot_by.columns:
 
             # Process target references by index.
             if isinstance(column, int):
                 index = column - 1
-                if not 0 <= index < len(targets):
+                if not 0 <= index < n_targets:
                     raise CompilationError(f'invalid PIVOT BY column index {column}')
                 indexes.append(index)
                 continue
@@ -336,7 +339,7 @@ class Compiler:
         # Sanity checks.
         if indexes[0] == indexes[1]:
             raise CompilationError('the two PIVOT BY columns cannot be the same column')
-        if indexes[1] not in group_indexes:
+        if group_indexes is None or indexes[1] not in group_indexes:
             raise CompilationError('the second PIVOT BY column must be a GROUP BY column')
 
         return indexes
